@@ -229,9 +229,12 @@ fn run_shots<RK: RadioKind, C: Probe>(
     let mut shots: Vec<Shot> = Vec::with_capacity(case.offsets as usize + 32);
     for k in 0..case.offsets {
         let start = if case.offsets == 256 { k as u8 } else { [0u8, 1, 255u8.wrapping_sub(case.len).wrapping_add(2), 255][k as usize % 4] };
-        let reported = if case.implicit { (start as u32 * 37 + case.len as u32 * 11 + 5) as u8 } else { case.len };
+        // (explicit header: every third packet of the series is shorter than the one before it - what an
+        // earlier, longer packet left in the caller's buffer is the caller's, not the driver's)
+        let len = if !case.implicit && k % 3 == 2 { case.len / 2 } else { case.len };
+        let reported = if case.implicit { (start as u32 * 37 + case.len as u32 * 11 + 5) as u8 } else { len };
         let ps = if k % 4 == 0 { PKT_STATUS_EDGE[((k / 4) as usize + case.len as usize) % PKT_STATUS_EDGE.len()] } else { rng.arr::<3>() };
-        shots.push(Shot { expected_len: case.len, reported_len: reported, start, status: None, pkt_status: ps, nonce: rng.u8() });
+        shots.push(Shot { expected_len: len, reported_len: reported, start, status: None, pkt_status: ps, nonce: rng.u8() });
     }
     if var.is_126x() {
         // under the sanitizers: two status bytes, one shot each
